@@ -5,6 +5,7 @@ Two layers:
   * TABLE: (fn path without crate prefix, kind, what) -> (max count, reason[, 'finding']) entered by hand after
     reading the code. A site that is in neither, or the (count+1)-th site of a reviewed group, is a VIOLATION.
 """
+import re
 from engine import mir
 from . import common as K
 
@@ -122,6 +123,32 @@ def auto(site, prog):
                             ok = True
                 if ok:
                     return "slice up to %s(): the length of the same collection minus a constant" % end[1].rsplit("::", 1)[-1]
+    if site.kind == "method" and site.what.endswith("copy_from_slice") and t is not None and t[0] == "call" and len(t[2]) == 2:
+        # `buf[a..b].copy_from_slice(&x.to_le_bytes())` with b - a == size of the integer: both lengths are constants and equal
+        dst, src = K.peel(t[2][0]), K.peel(t[2][1])
+        dlen = None
+        for y in mir.walk(dst):
+            if isinstance(y, tuple) and y and y[0] == "agg" and str(y[1]).endswith(("ops::range::Range", "ops::range::RangeTo")):
+                f = dict(y[3])
+                a0 = K.const_eval(f.get("start")) if f.get("start") is not None else 0
+                b0 = K.const_eval(f.get("end")) if f.get("end") is not None else None
+                if a0 is not None and b0 is not None:
+                    dlen = b0 - a0
+        slen = None
+        if isinstance(src, tuple) and src and src[0] == "call" and src[1].rsplit("::", 1)[-1] in ("to_le_bytes", "to_be_bytes", "to_ne_bytes") and len(src) > 3:
+            tm = b.blocks[src[3]]["term"]
+            m_ = re.match(r"^\[u8; (\d+)\]$", b.local_ty(tm["dst"]["l"]).strip())
+            if m_:
+                slen = int(m_.group(1))
+        if dlen is not None and slen is not None and dlen == slen:
+            return "copy of %d bytes into a constant %d-byte range" % (slen, dlen)
+    if site.kind == "method" and site.what.endswith("div_ceil") and t is not None and t[0] == "call" and len(t[2]) == 2:
+        d = K.peel(t[2][1])
+        v = K.const_eval(d)
+        if v is not None and v != 0:
+            return "div_ceil by the non-zero constant %s" % v
+        if isinstance(d, tuple) and d and d[0] == "bin" and d[1].startswith("Shl") and K.const_eval(d[2]) not in (None, 0):
+            return "div_ceil by a power of two (c << i, c != 0)"
     if site.kind == "arith" and site.what == "add_assign Stake" and t is not None and t[0] == "call" and len(t[2]) == 2:
         # `let mut s = Stake::default(); for v in .. { s += v.stake }`: the loop spelling of `.map(|v| v.stake).sum::<Stake>()` - the same
         # additions in the same order; the sum of the stakes of distinct validators is at most the total stake, which EpochInfo::new summed
@@ -152,6 +179,17 @@ DBG_WATERMARK = "debug assertion slot >= first_unpruned_slot: PoolImpl::add_cert
 STAKE_SUM = "sum of stakes of distinct validators (each counted once per class, C04) <= total stake, which fits u64 (EpochInfo::new sums it)"
 
 TABLE = {
+    # ---- slice / number methods with a precondition (found when the matching of `<impl [T]>` / `<impl usize>` method paths was repaired, round 10)
+    ("consensus::block_producer::produce_slice_payload", "method", "slice::copy_from_slice"):
+        (1, "buffer[0..8] <- u64::to_le_bytes(): 8 bytes on both sides; the buffer starts with 8 reserved bytes (extend([0; 8]))"),
+    ("shredder::SliceCommitment::new", "method", "slice::copy_from_slice"):
+        (3, "constant ranges of the [u8; SLICE_COMMITMENT_LEN] buffer (8, 8 and 32 bytes) filled from u64::to_le_bytes() twice and the 32-byte slice root"),
+    ("crypto::merkle::MerkleTree::new", "method", "num::ilog2"): (1, "nodes.len() > 0: assert!(!nodes.is_empty()) on the line before (non-empty leaves, see the entry for that assertion)"),
+    ("shredder::reed_solomon::ReedSolomonCoder::shred", "method", "slice::chunks"):
+        (2, "chunk size shred_bytes = (len + padding) / DATA_SHREDS >= 2 for every admitted payload length (C11 O11.6 evaluates this arithmetic for all 32 768 lengths)"),
+    ("shredder::reed_solomon::ReedSolomonCoder::shred", "method", "slice::split_at"):
+        (1, "payload.split_at(boundary): boundary = len - (last_shreds_bytes - padding) <= len for every admitted length (C11 O11.6 evaluates it); the spelling `payload[..boundary]` / `payload[boundary..]` is the reviewed index pair"),
+    ("types::stake::Stake::div_ceil", "method", "num::div_ceil"): (1, "divisor = number of bins: PartitionSampler::new returns early for num_bins == 0 (its only caller)"),
     # ---- blockstore
     ("<consensus::blockstore::BlockstoreImpl as consensus::blockstore::Blockstore>::get_block", "panic", "panicking::assert_failed"):
         (1, "debug assertion stored hash == requested hash: dissemination data is keyed by slot and compared, repair data is filed under the requested hash and completes only with that hash (C14 O14.3)"),
